@@ -425,10 +425,21 @@ func layerGoString(i interface{}, b *bytes.Buffer) {
 	}
 	switch v.Kind() {
 	case reflect.Ptr, reflect.Interface:
+		if v.IsNil() {
+			// nothing to dereference (e.g. an optional sub-structure that
+			// is absent from this packet)
+			b.WriteString("nil")
+			return
+		}
 		if v.Kind() == reflect.Ptr {
 			b.WriteByte('&')
 		}
-		layerGoString(v.Elem().Interface(), b)
+		if e := v.Elem(); e.CanInterface() {
+			layerGoString(e.Interface(), b)
+		} else {
+			// reached through an unexported field: keep walking the value
+			layerGoString(e, b)
+		}
 	case reflect.Struct:
 		t := v.Type()
 		b.WriteString(t.String())
@@ -443,7 +454,9 @@ func layerGoString(i interface{}, b *bytes.Buffer) {
 				fmt.Fprintf(b, "%s:", t.Field(i).Name)
 				layerGoString(v.Field(i), b)
 			} else if v.Field(i).Kind() == reflect.Ptr {
-				b.WriteByte('&')
+				if !v.Field(i).IsNil() {
+					b.WriteByte('&')
+				}
 				layerGoString(v.Field(i), b)
 			} else {
 				fmt.Fprintf(b, "%s:%#v", t.Field(i).Name, v.Field(i))
